@@ -128,17 +128,27 @@ async def wait_for(predicate: Callable[[], bool], timeout: float = 30.0, step: f
 
 
 @contextmanager
-def pc_environment(tap: Optional[DecoderTap] = None):
-    """Clock / RNG / decoder redirection for a peer-connection simulation."""
+def pc_environment(tap: Optional[DecoderTap] = None, yield_send: bool = False):
+    """Clock / RNG / decoder redirection for a peer-connection simulation.  With yield_send the ICE transports' datagram
+    send suspends for one loop turn first, as a TURN-relayed path does while it binds or refreshes a channel."""
+    import aioice.ice as ICE  # (RTCIceTransport binds Connection.send when it is constructed, inside the simulation)
+
     tap = tap or DecoderTap()
     now = lambda: asyncio.get_event_loop().wall()  # noqa: E731
-    with virtual_clocks(now), patched(RX, decoder_worker=tap, random=RandomShim([0.5])), patched(TX, random=RandomShim([0.5])):
+    orig_send = ICE.Connection.send
+
+    async def yielding_send(self, data: bytes) -> None:
+        await asyncio.sleep(0)
+        await orig_send(self, data)
+
+    with virtual_clocks(now), patched(RX, decoder_worker=tap, random=RandomShim([0.5])), patched(TX, random=RandomShim([0.5])), \
+            patched(ICE.Connection, send=yielding_send if yield_send else orig_send):
         yield tap
 
 
 def run_pc_sim(main: Callable[[vloop.VLoop], Any], *, max_iterations: int = 3_000_000, cpu_seconds: float = 120.0,
-               tap: Optional[DecoderTap] = None) -> Any:
-    with pc_environment(tap):
+               tap: Optional[DecoderTap] = None, yield_send: bool = False) -> Any:
+    with pc_environment(tap, yield_send):
         return vloop.run_sim(main, max_iterations=max_iterations, cpu_seconds=cpu_seconds)
 
 
